@@ -239,7 +239,7 @@ func (g *lsGen) c06Probe(k, typ string) {
 func genC06(r *core.Rand, env *core.Env, run int) *Scenario {
 	sc := &Scenario{Kind: "C06"}
 	sc.Knobs = Knobs{ShardNum: pick(r, []int{1, 2, 8, 1024}), Databases: 1, YieldRMW: r.Bool(0.3), MaxSteps: 30000,
-		Strategy: pick(r, []int{0, 0, 1, 2}), PreemptPct: pick(r, []int{10, 30, 60})}
+		Strategy: pick(r, []int{0, 0, 1, 2, 3}), PreemptPct: pick(r, []int{10, 30, 60})}
 	aim := run%8 == 7
 	g := newLsGen(r, env, "c0:", 1, aim)
 	g.timeOK = true
